@@ -247,7 +247,74 @@ def run(ctx):
         run.inst("C18.D5", "face-is-argmin-result", bool(faces) and not bad5,
                  "%d uses of the indexing face in lonlat_to_estimate, all find_nearest_origin(from_lon_lat(point))%s" % (len(faces), "" if not bad5 else "; not so: %s" % bad5[:2]),
                  where(fe.fn["span"]))
-    run.floor("C18", "rule instances", len(run.instances), 16)
+    # ---------------- D6: the two per-face constant tables (orientation rows, first quintants) are listed in construction
+    # order: a face's row and its first quintant are taken with one and the same index where the Origin is built, nothing
+    # rewrites them afterwards, and nobody else reads the tables (IDs use the re-ordered numbering)
+    from .hilbert_common import resolve_promoted as _rp
+    TABS = {O + "QUINTANT_ORIENTATIONS_ARRAYS": "orientation", O + "QUINTANT_FIRST": "first_quintant"}
+    OADT = "a5::core::utils::Origin"
+
+    def tab_index(t):
+        """[(table, index term)] for every table element read inside t"""
+        out_ = []
+        for x in walk(t):
+            if x[0] == "index" and len(x) == 3:
+                b_ = x[1]
+                for _ in range(6):
+                    if b_[0] in ("ref", "deref"):
+                        b_ = b_[2] if b_[0] == "ref" else b_[1]
+                    elif b_[0] == "promoted":
+                        b_ = _rp(facts, b_)
+                    else:
+                        break
+                if b_[0] == "static" and b_[1] in TABS:
+                    b_ = ("const", "json", None, b_[1])
+                if b_[0] == "const" and len(b_) > 3 and b_[3] in TABS:
+                    i_ = x[2]
+                    while i_[0] == "cast":
+                        i_ = i_[2]
+                    out_.append((b_[3], strip_site(i_)))
+        return out_
+    sites6 = 0
+    bad6 = []
+    outside = set()
+    for path, f in facts.fns.items():
+        if f["kind"] not in ("Fn", "AssocFn", "Closure") or path in getattr(facts, "spliced_helpers", ()):
+            continue
+        fx = fn_terms(facts, path)
+        for b in sorted(fx.cfg.reach):
+            if fx.blocks[b].get("cleanup"):
+                continue
+            for i_, st in enumerate(fx.blocks[b]["stmts"]):
+                if st["k"] != "assign":
+                    continue
+                rv = st["rv"]
+                t = fx.rvalue(rv, b, i_)
+                if tab_index(t) and not path.startswith(O + "generate_origins"):
+                    outside.add(path)
+                pr = st["place"]["proj"]
+                if pr and pr[-1]["k"] == "field" and pr[-1].get("adt") == OADT and pr[-1].get("name") in TABS.values():
+                    bad6.append("%s: field %s of a face row is rewritten after construction" % (path.split("::")[-1], pr[-1]["name"]))
+                if rv["k"] == "aggregate" and rv.get("agg") == "adt" and rv.get("adt") == OADT and t[0] == "agg" and t[4]:
+                    fv = dict(zip(t[4], t[3]))
+                    if all(any(y[0] == "field" and y[2] == n_ for y in walk(fv.get(n_, ("unknown",)))) for n_ in TABS.values()):
+                        continue        # a field-wise copy of an existing row (Clone)
+                    sites6 += 1
+                    io = [ix for tb, ix in tab_index(fv.get("orientation", ("unknown",))) if TABS[tb] == "orientation"]
+                    iq = [ix for tb, ix in tab_index(fv.get("first_quintant", ("unknown",))) if TABS[tb] == "first_quintant"]
+                    if len(io) != 1 or len(iq) != 1:
+                        bad6.append("%s: Origin built without reading its row / first quintant from the tables (%d / %d reads)" % (path.split("::")[-1], len(io), len(iq)))
+                    elif io[0] != iq[0]:
+                        bad6.append("%s: orientation row taken at %s, first quintant at %s" % (path.split("::")[-1], fmt(io[0])[:40], fmt(iq[0])[:40]))
+            tm = fx.blocks[b]["term"]
+        for c in fx.calls():
+            if any(tab_index(a) for a in c.args) and not path.startswith(O + "generate_origins"):
+                outside.add(path)
+    run.inst("C18.D6", "face-tables-one-index", sites6 >= 1 and not bad6 and not outside,
+             "%d Origin construction site(s): orientation row and first quintant are read with the same construction index%s%s" % (
+                 sites6, "" if not bad6 else "; " + bad6[0], "" if not outside else "; tables also read by %s" % sorted(x.split("::")[-1] for x in outside)),
+             where(facts.fns[O + "generate_origins"]["span"]) if O + "generate_origins" in facts.fns else None)
+    run.floor("C18", "rule instances", len(run.instances), 17)
 
 
 def check_argmin_fold(facts, ft, measure, source):
